@@ -150,32 +150,7 @@ func (r *rewriter) rewriteList(list []ast.Stmt) []ast.Stmt {
 		case *ast.SelectStmt:
 			st.Selects++
 			r.usedRT = true
-			hasBlocking := false
-			for _, cl := range c.Body.List {
-				cc := cl.(*ast.CommClause)
-				if cc.Comm != nil {
-					hasBlocking = true
-					r.skip[cc.Comm] = true
-					switch cm := cc.Comm.(type) {
-					case *ast.ExprStmt:
-						r.skip[cm.X] = true
-					case *ast.AssignStmt:
-						if len(cm.Rhs) == 1 {
-							r.skip[cm.Rhs[0]] = true
-						}
-					}
-					cc.Body = append([]ast.Stmt{stmtCall(rt("Woke"))}, cc.Body...)
-				}
-			}
-			_ = hasBlocking
-			dead := &ast.CommClause{
-				Comm: &ast.ExprStmt{X: &ast.UnaryExpr{Op: token.ARROW, X: call(rt("Dead"))}},
-				Body: []ast.Stmt{stmtCall(rt("Die"))},
-			}
-			r.skip[dead.Comm] = true
-			r.skip[dead.Comm.(*ast.ExprStmt).X] = true
-			c.Body.List = append(c.Body.List, dead)
-			out = append(out, stmtCall(rt("Yield")), s)
+			out = append(out, r.rewriteSelect(s, c)...)
 		case *ast.RangeStmt:
 			switch {
 			case r.isChan(c.X):
@@ -278,6 +253,186 @@ func (r *rewriter) rewriteList(list []ast.Stmt) []ast.Stmt {
 func isBlank(e ast.Expr) bool {
 	id, ok := e.(*ast.Ident)
 	return ok && id.Name == "_"
+}
+
+func ident(n string) *ast.Ident { return ast.NewIdent(n) }
+
+func define(lhs []ast.Expr, rhs ...ast.Expr) ast.Stmt {
+	return &ast.AssignStmt{Lhs: lhs, Tok: token.DEFINE, Rhs: rhs}
+}
+
+func assign(lhs []ast.Expr, rhs ...ast.Expr) ast.Stmt {
+	return &ast.AssignStmt{Lhs: lhs, Tok: token.ASSIGN, Rhs: rhs}
+}
+
+func (r *rewriter) isConstOrNil(e ast.Expr) bool {
+	tv, ok := r.pkg.TypesInfo.Types[e]
+	return ok && (tv.Value != nil || tv.IsNil())
+}
+
+// rewriteSelect makes the choice among ready cases a seeded one (Go picks at
+// random): the cases are polled one by one, non-blockingly, in an order drawn
+// from the tape; only if none is ready does the goroutine block in a select
+// over all of them (plus process death). The bodies move into a switch, where
+// an unlabelled break has the same meaning as in a select.
+func (r *rewriter) rewriteSelect(orig ast.Stmt, sel *ast.SelectStmt) []ast.Stmt {
+	type caseInfo struct {
+		cc       *ast.CommClause
+		ch       ast.Expr // hoisted channel ident
+		sendVal  ast.Expr
+		isSend   bool
+		lhs      []ast.Expr // receive targets (nil = value discarded)
+		tok      token.Token
+		v, ok, g string
+	}
+	var cases []*caseInfo
+	var def *ast.CommClause
+	var pre []ast.Stmt
+	for _, cl := range sel.Body.List {
+		cc := cl.(*ast.CommClause)
+		if cc.Comm == nil {
+			def = cc
+			continue
+		}
+		ci := &caseInfo{cc: cc, g: r.fresh("g")}
+		hoist := func(e ast.Expr, p string) ast.Expr {
+			n := r.fresh(p)
+			pre = append(pre, define([]ast.Expr{ident(n)}, e))
+			return ident(n)
+		}
+		switch cm := cc.Comm.(type) {
+		case *ast.SendStmt:
+			ci.isSend = true
+			ci.ch = hoist(cm.Chan, "c")
+			if r.isConstOrNil(cm.Value) {
+				ci.sendVal = cm.Value
+			} else {
+				ci.sendVal = hoist(cm.Value, "s")
+			}
+		case *ast.ExprStmt:
+			ci.ch = hoist(cm.X.(*ast.UnaryExpr).X, "c")
+		case *ast.AssignStmt:
+			ci.ch = hoist(cm.Rhs[0].(*ast.UnaryExpr).X, "c")
+			ci.lhs = cm.Lhs
+			ci.tok = cm.Tok
+		}
+		cases = append(cases, ci)
+	}
+	if len(cases) == 0 {
+		// select {} or only default: nothing to choose
+		dead := &ast.CommClause{Comm: &ast.ExprStmt{X: &ast.UnaryExpr{Op: token.ARROW, X: call(rt("Dead"))}}, Body: []ast.Stmt{stmtCall(rt("Die"))}}
+		r.skip[dead.Comm] = true
+		r.skip[dead.Comm.(*ast.ExprStmt).X] = true
+		if def == nil {
+			sel.Body.List = append(sel.Body.List, dead)
+		}
+		return []ast.Stmt{stmtCall(rt("Yield")), orig}
+	}
+	// slots
+	for _, ci := range cases {
+		if ci.lhs != nil {
+			ci.v, ci.ok = r.fresh("v"), r.fresh("ok")
+			pre = append(pre, define([]ast.Expr{ident(ci.v), ident(ci.ok), ident(ci.g)}, call(rt("RecvSlot"), ci.ch)))
+			pre = append(pre, assign([]ast.Expr{ident("_"), ident("_")}, ident(ci.v), ident(ci.ok)))
+		} else {
+			pre = append(pre, define([]ast.Expr{ident(ci.g)}, ident("false")))
+		}
+	}
+	mkComm := func(ci *caseInfo) ast.Stmt {
+		var comm ast.Stmt
+		switch {
+		case ci.isSend:
+			comm = &ast.SendStmt{Chan: ci.ch, Value: ci.sendVal}
+		case ci.lhs != nil:
+			u := &ast.UnaryExpr{Op: token.ARROW, X: ci.ch}
+			r.skip[u] = true
+			comm = assign([]ast.Expr{ident(ci.v), ident(ci.ok)}, u)
+		default:
+			u := &ast.UnaryExpr{Op: token.ARROW, X: ci.ch}
+			r.skip[u] = true
+			comm = &ast.ExprStmt{X: u}
+		}
+		r.skip[comm] = true
+		return comm
+	}
+	anyGot := func() ast.Expr {
+		var e ast.Expr
+		for _, ci := range cases {
+			if e == nil {
+				e = ident(ci.g)
+			} else {
+				e = &ast.BinaryExpr{X: e, Op: token.LOR, Y: ident(ci.g)}
+			}
+		}
+		return e
+	}
+	// poll loop
+	idx := r.fresh("i")
+	var pollCases []ast.Stmt
+	for i, ci := range cases {
+		one := &ast.SelectStmt{Body: &ast.BlockStmt{List: []ast.Stmt{
+			&ast.CommClause{Comm: mkComm(ci), Body: []ast.Stmt{assign([]ast.Expr{ident(ci.g)}, ident("true"))}},
+			&ast.CommClause{},
+		}}}
+		r.skip[one] = true
+		pollCases = append(pollCases, &ast.CaseClause{List: []ast.Expr{&ast.BasicLit{Kind: token.INT, Value: strconv.Itoa(i)}}, Body: []ast.Stmt{one}})
+	}
+	poll := &ast.RangeStmt{Key: ident("_"), Value: ident(idx), Tok: token.DEFINE, X: call(rt("SelectOrder"), &ast.BasicLit{Kind: token.INT, Value: strconv.Itoa(len(cases))}),
+		Body: &ast.BlockStmt{List: []ast.Stmt{
+			&ast.SwitchStmt{Tag: ident(idx), Body: &ast.BlockStmt{List: pollCases}},
+			&ast.IfStmt{Cond: anyGot(), Body: &ast.BlockStmt{List: []ast.Stmt{&ast.BranchStmt{Tok: token.BREAK}}}},
+		}}}
+	stmts := append(pre, stmtCall(rt("Yield")), poll)
+	if def == nil {
+		var blk []ast.Stmt
+		for _, ci := range cases {
+			blk = append(blk, &ast.CommClause{Comm: mkComm(ci), Body: []ast.Stmt{assign([]ast.Expr{ident(ci.g)}, ident("true"))}})
+		}
+		deadComm := &ast.ExprStmt{X: &ast.UnaryExpr{Op: token.ARROW, X: call(rt("Dead"))}}
+		r.skip[deadComm] = true
+		r.skip[deadComm.X] = true
+		blk = append(blk, &ast.CommClause{Comm: deadComm, Body: []ast.Stmt{stmtCall(rt("Die"))}})
+		bsel := &ast.SelectStmt{Body: &ast.BlockStmt{List: blk}}
+		r.skip[bsel] = true
+		stmts = append(stmts, &ast.IfStmt{Cond: &ast.UnaryExpr{Op: token.NOT, X: &ast.ParenExpr{X: anyGot()}}, Body: &ast.BlockStmt{List: []ast.Stmt{bsel, stmtCall(rt("Woke"))}}})
+	}
+	// dispatch
+	var disp []ast.Stmt
+	for _, ci := range cases {
+		var body []ast.Stmt
+		if ci.lhs != nil {
+			rhs := []ast.Expr{ident(ci.v)}
+			if len(ci.lhs) == 2 {
+				rhs = append(rhs, ident(ci.ok))
+			}
+			allBlank := true
+			for _, l := range ci.lhs {
+				if !isBlank(l) {
+					allBlank = false
+				}
+			}
+			if !allBlank {
+				body = append(body, &ast.AssignStmt{Lhs: ci.lhs, Tok: ci.tok, Rhs: rhs})
+			}
+		}
+		body = append(body, ci.cc.Body...)
+		disp = append(disp, &ast.CaseClause{List: []ast.Expr{ident(ci.g)}, Body: body})
+	}
+	if def != nil {
+		disp = append(disp, &ast.CaseClause{Body: def.Body})
+	}
+	var dispatch ast.Stmt = &ast.SwitchStmt{Body: &ast.BlockStmt{List: disp}}
+	// a label on the select moves to the dispatch switch (break L keeps its meaning)
+	for o := orig; ; {
+		l, ok := o.(*ast.LabeledStmt)
+		if !ok {
+			break
+		}
+		dispatch = &ast.LabeledStmt{Label: l.Label, Stmt: dispatch}
+		o = l.Stmt
+	}
+	stmts = append(stmts, dispatch)
+	return []ast.Stmt{&ast.BlockStmt{List: stmts}}
 }
 
 func (r *rewriter) rewriteGo(g *ast.GoStmt) ast.Stmt {
